@@ -97,6 +97,8 @@ def nest(scs, rnd, frac, marks=False):
                 inner["after"] = ["s1"]
             elif k == 3:
                 inner["before"] = ["s1"]
+            if rnd.random() < 0.2:
+                inner["rerun"] = ["s2"]      # a node inside the graph node asks for interrupt-and-rerun (decorate makes the inner graph able to keep its input)
         s2["sub"] = {n: inner}
         if s2["mode"] == "pregel" and (s2.get("max", 0) == 0 or s2["max"] > 4):
             s2["max"] = 4             # terms double per step when an inner fan-in sits in an outer cycle: keep such runs short
@@ -479,7 +481,7 @@ def c11(tier, repo=None):
                 ("sp3", consts("pregel", 3, 3, 1, 1, marks=2, rerun=True, maxchoice=(3,)), {"timeout": 1800}),
                 ("sd4s", consts("dag", 4, 7, 2, 0, marks=2, rerun=True, multi=True), {"simulate": "num=10000000", "depth": 18, "seed": vlib.SEED, "workers": 1, "sim_seconds": 150, "keep": 60000})]
         limit = 200000
-    return run_engine_check("C11", tier, model_cfgs=["MC_EinoRun_pregel2.cfg"], families=fams, decorate_kw={"state_variants": True},
+    return run_engine_check("C11", tier, model_cfgs=["MC_EinoRun_pregel2.cfg"], families=fams, decorate_kw={"state_variants": True, "nilout_frac": 0.15},
                             nontrivial=nontrivial, nest_frac=0.15, nest_marks=True, limit=limit, repo=repo, extra_part=c11_concurrent_part,
                             assumptions=["every pre-handler, post-handler and ProcessState callback of the harness performs one read-yield-write critical section on a counter kept in the state and logs it inside the lock; the rule demands that each one sees exactly the number of sections performed before it on that state (fresh state per run and per execution of a stateful nested graph, no lost update, carried over interrupts, +100 when the caller's state modifier ran)",
                                          "the deprecated GetState accessor is outside the property",
